@@ -672,12 +672,15 @@ pub fn random_spec(rng: &mut Rng, run: u64) -> RespSpec {
         _ => rng.next() & ((1u64 << nb).wrapping_sub(1)),
     };
     let mut p = [0u32; 6];
+    // lengths at which a CBOR head changes width, and their neighbours
+    let thresholds: [u32; 12] = [0, 1, 22, 23, 24, 25, 254, 255, 256, 257, 65535, 65536];
     for i in 0..6 {
-        p[i] = match (style, rng.below(4)) {
+        p[i] = match (style, rng.below(6)) {
             (0, _) => 0,
             (1, _) => mp[i],
             (_, 0) => mp[i],
             (_, 1) => mp[i].saturating_sub(1),
+            (_, 2) | (_, 3) => (*rng.pick(&thresholds)).min(mp[i]),
             _ => {
                 if mp[i] == 0 {
                     0
